@@ -209,6 +209,16 @@ def run_case(case):
                     other = [x for x in NOTATIONS if x != notn]
                     if other:
                         TabWriter(fmt, other[0], **wopts)(tab)
+                    # per-call keyword options (every option the writer declares, toggled for ONE call) must not
+                    # stick to the writer: the next plain call renders as before
+                    opts_before = dict(getattr(w, 'opts', {}) or {})
+                    for k_, v_ in list(opts_before.items()):
+                        if isinstance(v_, bool):
+                            try:
+                                w(tab, **{k_: not v_})
+                            except TypeError:
+                                pass
+                    rec['opts_kept'] = dict(getattr(w, 'opts', {}) or {}) == opts_before
                     out3 = w(tab)
                     rec['len'] = len(out1)
                     rec['same'] = bool(out1 == out2 == out3) and isinstance(out1, str)
